@@ -12,6 +12,8 @@ spec -> code: IpcReply_Export enumerates the request catalogue of IpcReply_Cases
               ebd.run_generic_phase (IpcError reply + build failure) -> EbuildProcessor.generic_handler
               (dispatch) / .read / .write (framing) -> the real IpcCommand objects.  Only the two pipe
               ends, run_phase (= "the phase runs, the daemon sends these lines") and shutdown are fake.
+              Streams <<a, b, canary>> with a = nonfatal request hit by an injected fault and b = a valid request
+              to the same helper object are all replayed in every tier (state left behind by a half-done request).
 code -> spec: seeded random longer streams over the same catalogue.
 bash side   : the nonfatal fault-free requests again, this time made by the REAL bash function
               __ebd_ipc_cmd over real pipes (run_bash_phase); the status bash ends up with is recorded.
